@@ -247,6 +247,87 @@ fn ark_part(ctx: &Ctx, rec: &mut Rec, zoo: &[SE]) {
         }
     });
 
+    // every deserialisation mode (Compress x Validate) of Element / AffinePoint on hostile strings,
+    // including crafted on-curve points outside the group in arkworks' own point formats. Modes
+    // that are `unimplemented!()` hand out nothing (counted, not judged); whatever *is* handed
+    // out must be a valid element.
+    {
+        use ark_serialize::{Compress, Validate};
+        let f = &c.f;
+        let i4 = f.sqrt(&f.neg(&b(1))).expect("q = 1 mod 4");
+        let t4 = crate::model::Pt { x: i4, y: b(0) };
+        let mut hostile: Vec<(Vec<u8>, &'static str)> = Vec::new();
+        let te_formats = |p: &crate::model::Pt, class: &'static str, out: &mut Vec<(Vec<u8>, &'static str)>| {
+            // arkworks twisted-Edwards formats: compressed = y with the sign of x in the top bit,
+            // uncompressed = x || y
+            let mut y = crate::model::to_le(&p.y, 32);
+            let mut unc = crate::model::to_le(&p.x, 32);
+            unc.extend_from_slice(&y);
+            out.push((unc, class));
+            let neg_x = &p.x > &((&f.p - b(1)) >> 1);
+            if neg_x {
+                y[31] |= 0x80;
+            }
+            out.push((y, class));
+        };
+        let mut r3 = rng_for(ctx.seed, P, 997, 0);
+        te_formats(&t4, "4-torsion", &mut hostile);
+        te_formats(&c.neg(&t4), "4-torsion", &mut hostile);
+        te_formats(&c.identity(), "identity-reps", &mut hostile);
+        te_formats(&c.t2(), "identity-reps", &mut hostile);
+        for e in zoo.iter().take(ctx.scale(40, 400)) {
+            te_formats(&c.add(&e.m, &t4), "on-curve-outside-group", &mut hostile);
+            te_formats(&e.m, "in-group (TE format)", &mut hostile);
+            te_formats(&c.torque(&e.m), "in-group (TE format)", &mut hostile);
+            let (x, y) = (rand_below(&mut r3, &f.p), rand_below(&mut r3, &f.p));
+            te_formats(&crate::model::Pt { x, y }, "off-curve", &mut hostile);
+            hostile.push((c.encode_spec(&e.m).unwrap().to_vec(), "decaf-encoding"));
+            hostile.push((rand_bytes(&mut r3, 32), "random"));
+            hostile.push((rand_bytes(&mut r3, 64), "random"));
+        }
+        for cl in ["4-torsion", "identity-reps", "on-curve-outside-group", "in-group (TE format)", "off-curve", "decaf-encoding", "random"] {
+            rec.declare_class(&format!("deser:{cl}"));
+        }
+        type DeFn = fn(&[u8]) -> Result<El, String>;
+        let modes: Vec<(&'static str, DeFn)> = vec![
+            ("Element::deserialize_with_mode(Yes,Yes)", |s| El::deserialize_with_mode(s, Compress::Yes, Validate::Yes).map_err(|e| format!("{e:?}"))),
+            ("Element::deserialize_with_mode(Yes,No)", |s| El::deserialize_with_mode(s, Compress::Yes, Validate::No).map_err(|e| format!("{e:?}"))),
+            ("Element::deserialize_with_mode(No,Yes)", |s| El::deserialize_with_mode(s, Compress::No, Validate::Yes).map_err(|e| format!("{e:?}"))),
+            ("Element::deserialize_with_mode(No,No)", |s| El::deserialize_with_mode(s, Compress::No, Validate::No).map_err(|e| format!("{e:?}"))),
+            ("AffinePoint::deserialize_with_mode(Yes,Yes)", |s| Af::deserialize_with_mode(s, Compress::Yes, Validate::Yes).map(|a| a.into()).map_err(|e| format!("{e:?}"))),
+            ("AffinePoint::deserialize_with_mode(Yes,No)", |s| Af::deserialize_with_mode(s, Compress::Yes, Validate::No).map(|a| a.into()).map_err(|e| format!("{e:?}"))),
+            ("AffinePoint::deserialize_with_mode(No,Yes)", |s| Af::deserialize_with_mode(s, Compress::No, Validate::Yes).map(|a| a.into()).map_err(|e| format!("{e:?}"))),
+            ("AffinePoint::deserialize_with_mode(No,No)", |s| Af::deserialize_with_mode(s, Compress::No, Validate::No).map(|a| a.into()).map_err(|e| format!("{e:?}"))),
+            ("AffinePoint::deserialize_uncompressed", |s| Af::deserialize_uncompressed(s).map(|a| a.into()).map_err(|e| format!("{e:?}"))),
+            ("AffinePoint::deserialize_compressed_unchecked", |s| Af::deserialize_compressed_unchecked(s).map(|a| a.into()).map_err(|e| format!("{e:?}"))),
+            ("Element::deserialize_uncompressed_unchecked", |s| El::deserialize_uncompressed_unchecked(s).map_err(|e| format!("{e:?}"))),
+        ];
+        for (name, _) in &modes {
+            rec.declare_form(name);
+        }
+        par(rec, |w, n, rec| {
+            for (i, (s, class)) in hostile.iter().enumerate() {
+                if i % n != w {
+                    continue;
+                }
+                rec.class(&format!("deser:{class}"));
+                for (name, f) in &modes {
+                    rec.form(name);
+                    rec.eval(&(name, s.clone()), false);
+                    let s2 = s.clone();
+                    match guarded(|| f(&s2)) {
+                        Err(_) => rec.count("deserialisation mode not implemented / panicked (nothing handed out)", 1),
+                        Ok(Err(_)) => rec.count("hostile strings rejected", 1),
+                        Ok(Ok(e)) => {
+                            rec.count("hostile strings accepted", 1);
+                            validate(ctx, rec, name, &e, json!({"bytes": hx(s), "class": class}), true);
+                        }
+                    }
+                }
+            }
+        });
+    }
+
     // deserialisers and conversions on valid inputs (program registers)
     let convs: Vec<(&'static str, fn(&El) -> Vec<El>)> = vec![
         ("Element::deserialize_compressed", |e| vec![El::deserialize_compressed(&enc(e)[..]).unwrap()]),
